@@ -1,0 +1,30 @@
+//go:build verif
+
+package iscp
+
+import (
+	"github.com/aptpod/iscp-go/transport"
+)
+
+// This file is compiled only with `-tags verif`. It exports a few unexported
+// symbols for the external verification harness. It adds no behaviour.
+
+// VerifRegisterDialer registers a custom dialer under a transport name.
+// Must be called before any Connect (the registry is not synchronised).
+func VerifRegisterDialer(tr TransportName, f func() transport.Dialer) {
+	customDialFuncs[tr] = f
+}
+
+// VerifSentStorage is the unexported sent-chunk storage interface.
+type VerifSentStorage = sentStorage
+
+// VerifNewInmemSentStorage returns the payload-keeping in-memory sent storage.
+func VerifNewInmemSentStorage() VerifSentStorage { return newInmemSentStorage() }
+
+// VerifNewInmemSentStorageNoPayload returns the payload-stripping in-memory sent storage.
+func VerifNewInmemSentStorageNoPayload() VerifSentStorage { return newInmemSentStorageNoPayload() }
+
+// VerifWithSentStorage sets the sent storage of a connection.
+func VerifWithSentStorage(s VerifSentStorage) ConnOption {
+	return func(c *ConnConfig) { c.sentStorage = s }
+}
